@@ -115,6 +115,20 @@ pub async fn backup(
 
     // Create the new band only after finding the basis band!
     let band = Band::create(archive).await?;
+    // Look for the gc lock again now that the new band is visible. A collector that took
+    // the lock after the test at the top can't have seen this band when it decided which
+    // blocks are unreferenced, and would go on to delete blocks that this backup is about
+    // to find present and reference. (Conversely, if the lock appears only after this
+    // point, the collector's own re-check sees the new band and stops before deleting.)
+    if archive
+        .transport()
+        .list_dir("")
+        .await?
+        .iter()
+        .any(|entry| entry.name == gc_lock::GC_LOCK)
+    {
+        return Err(Error::GarbageCollectionLockHeld);
+    }
     let index_writer = band.index_writer(monitor.clone());
     let block_dir = archive.block_dir().await?;
     let mut writer = BackupWriter {
